@@ -78,7 +78,7 @@ NAMES = [
     dict(b='x', asc1='X', asc2='x1', c='x10', fix='W', sig='V', a='x2'),
     dict(b='beta2', asc1='beta10', asc2='beta1', c='Beta3', fix='BETA', sig='B_sig', a='beta_a'),
 ][_A]
-COLUMNS = ['X2', 'CH', 'U0', 'X1', 'W3', 'X3', 'Y', 'W1', 'W2']  # table order (not alphabetical, one unused)
+COLUMNS = ['X2', 'CH', 'U0', 'X1', 'W3', 'X3', 'Y', 'W1', 'WG', 'W2']  # table order (not alphabetical, one unused)
 
 ALGOS = ['scipy', 'LS-newton', 'TR-newton', 'LS-BFGS', 'TR-BFGS', 'simple_bounds', 'simple_bounds_newton',
          'simple_bounds_BFGS', 'automatic']
@@ -139,7 +139,7 @@ def make_table(tpl, nrows, code):
     rows = []
     for i in range(nrows):
         x1, x2, x3, w1, w2, w3 = ATTR[i]
-        d = dict(X1=x1, X2=x2, X3=x3, W1=w1, W2=w2, W3=w3, U0=float(7 - i), CH=0.0, Y=0.0)
+        d = dict(X1=x1, X2=x2, X3=x3, W1=w1, W2=w2, W3=w3, U0=float(7 - i), CH=0.0, Y=0.0, WG=1.0)
         if tpl['kind'] == 'logit':
             d['CH'] = float(tpl['alts'][code[i]][0])
         else:
@@ -268,6 +268,17 @@ def newton(prob, x0, idx):
             return None
         slope = sum(a * b for a, b in zip(gs, d))
         if slope <= 0.0 or slope < 1e-30:
+            break
+        if slope < 1e-11 * max(1.0, abs(ll)):
+            # the predicted increase is below the rounding resolution of the value: polish with full Newton steps
+            # accepted on the gradient norm
+            xn = list(x)
+            for i, di in zip(idx, d):
+                xn[i] = x[i] + di
+            lln, gn, Hn, _ = prob.eval(xn)
+            if max(abs(gn[i]) for i in idx) < max(abs(g[i]) for i in idx):
+                x, ll, g, H = xn, lln, gn, Hn
+                continue
             break
         t = 1.0
         moved = False
@@ -408,7 +419,7 @@ def clip_start(s, lb, ub):
 
 
 # =========================================================================== the real thing
-def build_biogeme(tpl, rows, start, lb, ub, variant, share=True, boot_samples=None):
+def build_biogeme(tpl, rows, start, lb, ub, variant, share=True, boot_samples=None, as_dict=False):
     """start/lb/ub are given over the FREE parameters in template order."""
     import pandas as pd
     import biogeme.biogeme as bb
@@ -458,7 +469,8 @@ def build_biogeme(tpl, rows, start, lb, ub, variant, share=True, boot_samples=No
     kw.update(extra)
     if boot_samples is not None:
         kw['bootstrap_samples'] = boot_samples
-    b = bb.BIOGEME(d, ll, parameters=Parameters(), **kw)
+    formulas = {'loglike': ll, 'weight': Variable('WG')} if as_dict else ll
+    b = bb.BIOGEME(d, formulas, parameters=Parameters(), **kw)
     b.modelName = 'm07'
     return b, made
 
@@ -489,7 +501,7 @@ def check_run(rec, tpl, rows, prob, refs, bname, lb, ub, bkind, sidx, variant, m
     nf = len(prob.free)
     start = clip_start(STARTS[sidx][:nf], lb, ub)
     share = (sidx != 1)
-    b, made = build_biogeme(tpl, rows, start, lb, ub, variant, share=share)
+    b, made = build_biogeme(tpl, rows, start, lb, ub, variant, share=share, as_dict=(sidx == 2))
     names_lib = list(b.free_beta_names)
     free_names = [prob.names[k] for k in prob.free]
     perm = [free_names.index(nm) for nm in names_lib]  # library position -> template free position
